@@ -1715,6 +1715,48 @@ def generate(rng: random.Random, tier: str):
     return out
 
 
+_SPECIAL_WORDS = {"true", "false", "nan", "inf", "infinity", "none", "expression", "numexpr", "numpy", "t", "e", "pi"}
+
+
+def modelled(v, x) -> bool:
+    """Whether the model transcribes what numpy / numexpr do with value `x` for variable `v`
+    (elsewhere the driver answers UNMODELLED and the case is not binding)."""
+    t = v["type"]
+    if x is None:
+        return True
+    plain = isinstance(x, str) and x.isascii() and x.isalpha() and x.lower() not in _SPECIAL_WORDS
+    if isinstance(t, list):
+        if isinstance(x, str) or isinstance(x, dict):
+            return True
+        if isinstance(x, list):
+            return len(x) != 1
+        return isinstance(x, int) and not isinstance(x, bool) and 0 <= x < len(t)
+    if t in ("float", "int"):
+        if isinstance(x, str):
+            return (all(c in "0123456789.+-* " for c in x) and "**" not in x) or plain
+        if isinstance(x, list):
+            return len(x) != 1
+        return True
+    if t == "bool":
+        if isinstance(x, list):
+            return len(x) >= 2
+        return not isinstance(x, dict)
+    if t == "str":
+        return isinstance(x, str)
+    if t == "date":
+        if isinstance(x, bool):
+            return False
+        if isinstance(x, str):
+            if plain:
+                return True
+            m = re.match(r"^(\d{4})(-(\d{2})(-(\d{2}))?)?$", x)
+            if m and x[0] != "0":
+                return m.group(3) is None or 1 <= int(m.group(3)) <= 12 or m.group(5) is not None
+            return bool(re.match(r"^\d{4}-W\d{2}(-\d)?$", x))
+        return True
+    return False
+
+
 def enumerate_thorough():
     """Two complete finite sub-spaces: (1) two persons, every pair of spellings of the same month /
     year / eternity key, every membership layout of a one-kind system; (2) every value type against
@@ -1738,10 +1780,8 @@ def enumerate_thorough():
     for v in [x for x in S["vars"] if x["entity"] == "person" and x["rule"] == "absent"]:
         key = spellings(v["unit"], CANON[v["unit"]][0])[0]
         for x in values:
-            r = readable(v, x) if x is not None else ("ok",)
-            claimed = not (r[0] == "dc" and (isinstance(x, (list, dict)) or (isinstance(x, str) and v["type"] in ("date",)) or
-                                             v["type"] == "str" or (v["type"] == "bool" and isinstance(x, (list, dict)))))
-            out.append(mk_case(S, None, {"persons": {"a": {}, "b": {v["name"]: {key: x}}}}, tags=("enum", "values"), claimed=claimed))
+            out.append(mk_case(S, None, {"persons": {"a": {}, "b": {v["name"]: {key: x}}}}, tags=("enum", "values"),
+                               claimed=modelled(v, x)))
     return out
 
 
